@@ -304,6 +304,7 @@ def c01_5(ctx):
         ok = len(cont) == 1 and U.has_field(cont[0], "coin_amount") and "puzzle_hash" in str(cont[0])
         ctx.ob(R, "is_ephemeral:child-match", ok,
                "the parent's create_coin set must contain (this spend's puzzle hash, this spend's amount)", found=[show(c)[:240] for c in cont])
+    is_ephemeral_exact(ctx, R)
     # every entry point reaches validate_conditions (and signature validation) on every Ok path
     vc = "chia_consensus::conditions::validate_conditions"
     vs = "chia_consensus::conditions::validate_signature"
@@ -366,3 +367,42 @@ def c01_6(ctx, R="C01.6"):
                     "run_block_generator2 accepts only if the spend list ends in nil (atom_len == 0)")
     else:
         ctx.missing(R, "native-spend-list-terminator", "run_block_generator2 not found")
+
+
+def is_ephemeral_exact(ctx, R):
+    """is_ephemeral has exactly two paths and no other test (in particular none on positions in the spend list):
+       spent_ids.get(parent id of spends[i]) is None           -> false
+       ...                                   is Some(j)        -> spends[j].create_coin.contains((puzzle hash, amount) of spends[i])
+    The ephemeral rules (ASSERT_EPHEMERAL, no relative/birth conditions on ephemeral coins) are defined on the *set* of spends;
+    block builders emit spends in the reverse of bundle order, so any positional test makes mempool and block verdicts differ."""
+    eb = U.body(ctx, R, "chia_consensus::conditions::is_ephemeral")
+    if not eb:
+        return
+    rows = set()
+    try:
+        for ev, ex in P.enumerate_paths(eb):
+            if ex[0] != "return":
+                rows.add(("exit:" + str(ex[0]),))
+                continue
+            cs = tuple(sorted((str(apnf.N(t)), str(l)) for t, l in P.conds(ev)))
+            rows.add((cs, str(apnf.N(P.ret_of(ev)))))
+    except P.Budget:
+        return ctx.missing(R, "is_ephemeral:exact", "path budget exceeded")
+    look = "('HashMap::get', 'spent_ids', ('Result::unwrap', ('try_from', ('Allocator::atom', ('.parent_id', ('[]', 'spends', 'spend_idx'))))))"
+    ok = len(rows) == 2
+    shape = {"none": False, "some": False}
+    for r in rows:
+        if len(r) != 2 or len(r[0]) != 1 or r[0][0][0] != look:
+            ok = False
+            continue
+        lab, ret = r[0][0][1], r[1]
+        if "None" in lab and ret in ("0", "False", "false"):
+            shape["none"] = True
+        elif "Some" in lab and ret.startswith("('HashSet::contains', ('.create_coin', ('[]', 'spends', " + look + ")), ('NewCoin::NewCoin', ") \
+                and "('.puzzle_hash', ('[]', 'spends', 'spend_idx'))" in ret and "('.coin_amount', ('[]', 'spends', 'spend_idx'))" in ret:
+            shape["some"] = True
+        else:
+            ok = False
+    ctx.ob(R, "is_ephemeral:exact", ok and all(shape.values()),
+           "is_ephemeral = parent id found in spent_ids AND that spend's create_coin contains (puzzle hash, amount); no other test "
+           "(no dependence on the position of either spend in the list)", found=None if ok else sorted(map(str, rows))[:4], where=eb.fn.sp)
